@@ -645,10 +645,11 @@ impl SwiftField for Field50InstructingParty {
                 let field = Field50L::parse(value)?;
                 Ok(Field50InstructingParty::L(field))
             }
-            _ => {
-                // No variant specified, fall back to default parse behavior
-                Self::parse(value)
-            }
+            // No option letter given: fall back to content-based detection
+            None => Self::parse(value),
+            Some(other) => Err(ParseError::InvalidFormat {
+                message: format!("Field 50 has no option '{}'", other),
+            }),
         }
     }
 
@@ -732,10 +733,11 @@ impl SwiftField for Field50OrderingCustomerFGH {
                 let field = Field50H::parse(value)?;
                 Ok(Field50OrderingCustomerFGH::H(field))
             }
-            _ => {
-                // No variant specified, fall back to default parse behavior
-                Self::parse(value)
-            }
+            // No option letter given: fall back to content-based detection
+            None => Self::parse(value),
+            Some(other) => Err(ParseError::InvalidFormat {
+                message: format!("Field 50 has no option '{}'", other),
+            }),
         }
     }
 
@@ -826,10 +828,11 @@ impl SwiftField for Field50OrderingCustomerAFK {
                 let field = Field50K::parse(value)?;
                 Ok(Field50OrderingCustomerAFK::K(field))
             }
-            _ => {
-                // No variant specified, fall back to default parse behavior
-                Self::parse(value)
-            }
+            // No option letter given: fall back to content-based detection
+            None => Self::parse(value),
+            Some(other) => Err(ParseError::InvalidFormat {
+                message: format!("Field 50 has no option '{}'", other),
+            }),
         }
     }
 
@@ -918,10 +921,10 @@ impl SwiftField for Field50OrderingCustomerNCF {
                 let field = Field50F::parse(value)?;
                 Ok(Field50OrderingCustomerNCF::F(field))
             }
-            _ => {
-                // Unknown variant, fall back to default parse behavior
-                Self::parse(value)
-            }
+            Some("") => Self::parse_with_variant(value, None, _field_tag),
+            Some(other) => Err(ParseError::InvalidFormat {
+                message: format!("Field 50 has no option '{}'", other),
+            }),
         }
     }
 
@@ -993,10 +996,11 @@ impl SwiftField for Field50Creditor {
                 let field = Field50K::parse(value)?;
                 Ok(Field50Creditor::K(field))
             }
-            _ => {
-                // No variant specified, fall back to default parse behavior
-                Self::parse(value)
-            }
+            // No option letter given: fall back to content-based detection
+            None => Self::parse(value),
+            Some(other) => Err(ParseError::InvalidFormat {
+                message: format!("Field 50 has no option '{}'", other),
+            }),
         }
     }
 
